@@ -14,6 +14,9 @@ ENGINES = [
 NOTES = ("Static analysis only: no registered check executes the library. Every check re-extracts facts from /repo's "
          "current working tree (cache keyed by a hash of the tree).")
 
+IMP = (" Also re-decides, and reports under this property, the sibling clauses its argument rests on "
+       "(DESIGN.md §4 `Imported clauses`): ")
+
 CLAIMED = {
     "C15": {
         "engine": "E2 typestate over interprocedural MIR",
@@ -45,13 +48,15 @@ CLAIMED["C14"] = {
 
 CLAIMED["C13"] = {
     "engine": "E2 taint-with-sanitiser + framing typestate over interprocedural MIR",
-    "technique": "taint analysis with a proved LF sanitiser (search predicate evaluated abstractly) and a framing typestate over the interprocedural MIR CFG",
+    "technique": "taint analysis with a proved LF sanitiser (search predicate evaluated abstractly), a framing typestate over the interprocedural MIR CFG, and finite-state extraction of the Writer's dirty tracking over text shapes explored to closure",
     "text": ("Decides (S) that on every path of every public Writer method taking text, the bytes handed to the sink are the LF-free part "
              "before an LF found by a search proved to test byte==0x0A, the text on the not-found edge, an LF-free constant, or CR LF "
              "directly after such a part, that the scan resumes one byte after the LF and that the whole text is consumed before Ok; "
              "(F) that after user output every path consults Writer::is_dirty and writes CR LF exactly on the true edge before any "
-             "other sink write or successful return; (W) that Cli::write performs no editor mutation. Not decided: the value computed "
-             "by is_dirty (dirty/last_bytes tracking) and the redisplay of the line (C06)."),
+             "other sink write or successful return; (W) that Cli::write performs no editor mutation; (D) the Writer's dirty tracking, extracted "
+             "as a finite-state machine over text shapes and explored to closure over every sequence of write_str / writeln_str calls (empty "
+             "writes included): is_dirty() holds iff something was written and it does not end with a line break. Not decided: the redisplay "
+             "of the line (C06)."),
     "design_ref": "DESIGN.md §4 C13",
     "note": TB + " The sanitiser idiom recognised is position-based scanning; another correct idiom makes the check fail closed.",
 }
@@ -66,7 +71,8 @@ CLAIMED["C01"] = {
              "tokenises exactly the edit buffer, builds the raw command from exactly those tokens and dispatches exactly that command once "
              "iff there is a token and (help on) it is not a help request; Ok paths end with editor reset, one prompt, flush; history is "
              "pushed from Editor::text before the rewrite; from_tokens returns (first token, rest) and None iff no first token. "
-             "Not decided: equality of the tokens with the visible line after arbitrary editing (C05/C07/C08)."),
+             "Not decided as a value: equality of the tokens with the line after arbitrary editing." + IMP +
+             "C04 (key decoding), C05 (editor operations), C06.sync (the visible line is the editor's), C07 (tokenisation), C08.classify."),
     "design_ref": "DESIGN.md §4 C01",
     "note": TB,
 }
@@ -76,17 +82,21 @@ CLAIMED["C05"] = {
     "text": ("Decides the key->editor-operation table for every path (Char: one insert of the typed text; Backspace: move_left then remove iff "
              "moved, adjacent; Left/Right: the single move; Tab: autocompletion only), that the rejecting exits of insert/move_left/move_right "
              "write nothing, and that the moves change the cursor by exactly one with move_left guarded by cursor>0. "
-             "Not decided: equality with an ideal editor over arbitrary edit histories; the capacity guard as arithmetic is under C03."),
+             "Character units: Editor::len is the character count, move_right is guarded by cursor < len(), a completion leaves the cursor at len(). "
+             "Not decided: equality with an ideal editor over arbitrary edit histories; the capacity guard as arithmetic is under C03." + IMP +
+             "C17.counting / C17.A (char_count and char_byte_index count scalars)."),
     "design_ref": "DESIGN.md §4 C05",
     "note": TB,
 }
 CLAIMED["C10"] = {
     "engine": "E2 event words + field-fact typestate",
-    "technique": "event-word analysis of the history wiring and field-fact abstract interpretation of History methods (cursor = None at every exit of push)",
+    "technique": "event-word analysis of the history wiring; field-fact abstract interpretation of History methods (cursor = None at every exit of push); linear-domain abstract interpretation with Fourier-Motzkin entailment for push's space accounting; index-provenance classification of comparisons with stored text",
     "text": ("Decides the wiring (push from Editor::text before the rewrite; Up->next_older, Down->next_newer; a recalled element replaces the "
              "line; past-oldest does nothing; past-newest leaves the empty line), that a submit ends navigation (cursor None at every exit of "
-             "the History method the Enter arm calls) and that recall never writes the store. Not decided: order, deduplication and minimal "
-             "eviction over arbitrary histories (content of the byte buffer)."),
+             "the History method the Enter arm calls), that recall never writes the store, the space accounting of push on every path and for every "
+             "capacity in the linear domain (a path that removes an older copy leaves `used` unchanged; a path that moves nothing records nothing "
+             "or appends exactly len+1; eviction only where used+len+1 > capacity), and that every comparison of the submitted line with stored "
+             "text is with a slice starting at an entry start. Not decided: order and deduplication as values over arbitrary histories."),
     "design_ref": "DESIGN.md §4 C10",
     "note": TB,
 }
@@ -99,7 +109,7 @@ CLAIMED["C12"] = {
              "command_count / group listing against the oracle, UnknownCommand for undeclared names, the option-skipping walker on every argument "
              "word up to the depth bound (own help vs. delegation to the right sub-command), and the presence of usage path, positionals, every "
              "option with its names and value name, `-h, --help` and the sub-command list in a command's own help. Not decided: text layout, "
-             "declarations outside the corpus."),
+             "declarations outside the corpus." + IMP + "C08.classify (help options are found among ArgsIter's classified items)."),
     "design_ref": "DESIGN.md §4 C12",
     "note": TB,
 }
@@ -109,12 +119,16 @@ FSM = ("finite-state extraction by abstract interpretation of the MIR over byte 
 
 CLAIMED["C02"] = {
     "engine": "E4 finite-state extraction + equivalence",
-    "technique": FSM,
+    "technique": FSM + "; index-provenance abstract interpretation in a linear domain for every unchecked text construction",
     "text": ("Decides for all byte streams: the scalar decoder (Utf8Accum) emits, in every reachable state and for every input byte, exactly one "
              "well-formed scalar of Unicode Table 3-7 or nothing; from every reachable state any well-formed sequence is decoded to itself "
              "(resynchronisation); the answer is a function of (state, byte). The alphabet is a partition of 0..255 respecting every constant "
-             "of the code and of the table, so the result is exact, not sampled. Not decided yet: the who-writes-text-buffers taint and the "
-             "classification of every unchecked string constructor (pending), char-boundary facts of the counting helpers."),
+             "of the code and of the table, so the result is exact, not sampled. U4: every unchecked construction of text elsewhere "
+             "(from_utf8_unchecked[_mut] over a sub-slice, str::get_unchecked) has both ends at a scalar boundary by construction (0, a str "
+             "length, the position of an ASCII byte found by an abstractly evaluated search, a result of char_byte_index/common_prefix_len, or a "
+             "field holding such a position inductively), and stores into text buffers are ASCII or copies of str bytes at such offsets. "
+             "Not decided: that the counting helpers return boundaries (argued from U2 and C17.D); History.used/cursor rest on the "
+             "NUL-separation invariant assumed in C03."),
     "design_ref": "DESIGN.md §4 C02, §2 E4, App. B.1",
     "note": TB + " specs/utf8.py transcribes Table 3-7.",
 }
@@ -148,9 +162,11 @@ CLAIMED["C06"] = {
              "guards on cursor/len kept, counted loops summarised by their trip count) maps a synchronised terminal/editor state to a "
              "synchronised one, for every start state with up to 3 characters on each side of the cursor, two prompts and every modelled "
              "typed/recalled/completed text; codes::* are compared with ECMA-48. Not decided: display width other than 1, wrapping, and "
-             "what depends on the editor being an ideal editor (C05's undecided part)."),
+             "what depends on the editor being an ideal editor (C05's undecided part)." + IMP +
+             "C13.dirty/framing/sanitise (`not dirty` means column 0 when the line is redrawn after application output) and C05 (the effect "
+             "model's editor operations are the real ones)."),
     "design_ref": "DESIGN.md §4 C06, App. B.5",
-    "note": TB + " Editor operation effects and `is_dirty false => fresh line` are assumed as specified.",
+    "note": TB + " Editor content effects (insert/remove at the cursor) are taken as specified.",
 }
 CLAIMED["C11"] = {
     "engine": "pipeline extraction + table evaluation",
@@ -159,7 +175,9 @@ CLAIMED["C11"] = {
              "merge_autocompletion as `n[len(request)..]`, for every request that is a prefix of a declared name (truncating adaptors over "
              "non-contiguous tables are reported with the names lost); group impls consult each visible member once and hidden ones never; "
              "the Tab arm maps to one Editor::autocompletion whose closure merges the built-in help candidate iff `help` starts with the "
-             "request. Not decided: the value kept by merge_autocompletion (common continuation), buffer bounds (C03)."),
+             "request; merge_autocompletion on every path (linear domain): `partial` is sticky, is set by every merge into a non-empty state, and "
+             "the kept length is at most the candidate, the previous and the buffer length. Not decided: that the kept prefix is the longest "
+             "common continuation as a value (common_prefix_len: C17.D), buffer bounds (C03)."),
     "design_ref": "DESIGN.md §4 C11",
     "note": TB + " Quantifier over declarations is bounded by the corpus (fixtures/decls, integration tests, examples/desktop).",
 }
@@ -172,7 +190,8 @@ CLAIMED["C16"] = {
              "its disabled features remove / change alone (no interaction), with the facility's items anchored; and the event words of "
              "Cli::process_byte, Cli::write and Cli::set_prompt (every path and outcome) are identical to the full configuration's except that "
              "Up/Down (history off) and Tab (autocomplete off) have the empty word, the history push disappears from Enter, and (help off) the "
-             "help decision disappears and every command is dispatched."),
+             "help decision disappears and every command is dispatched; and (G) the derive output for the declaration corpus is identical across "
+             "feature sets except for the impls of the disabled facility itself."),
     "design_ref": "DESIGN.md §4 C16, §2 E6",
     "note": TB + " The behaviour compared is the event-word abstraction (which operations, in which order, on which values), not concrete runs.",
 }
@@ -210,7 +229,8 @@ CLAIMED["C17"] = {
              "char_pop_front reassembles exactly those bits and leaves exactly the following text, for each of the four lengths (hence the "
              "round trip for all 1,112,064 scalars without enumerating them); (C) bytes >= 0x80 are ordinary in every tokenizer state; (D) the "
              "counting helpers feed each byte once, in order, to a fresh accumulator and step their counter iff it reports a scalar. "
-             "The composition of (A) and (D) into `count = number of scalars` is an argument in DESIGN.md, its premises are what is checked."),
+             "The composition of (A) and (D) into `count = number of scalars` is an argument in DESIGN.md, its premises are what is checked." + IMP +
+             "C05.units/move (cursor positions are whole characters) and C12.from_command (no scalar other than `h` is taken for the help option)."),
     "design_ref": "DESIGN.md §4 C17",
     "note": TB + " The UTF-8 bit layout (FORMS in rules/C17.py) and specs/utf8.py are the references.",
 }
@@ -224,7 +244,8 @@ CLAIMED["C09"] = {
              "argument word up to the depth bound (3 quick, 4 thorough) over declared and undeclared options, values with succeeding or failing "
              "conversion, `--` and end; that generated processors call the handler exactly when parsing succeeded; that groups try members in "
              "order and pass on only on UnknownCommand; that each of the 16 FromArgument instances parses at and reports its own type; and that "
-             "process_error prints one `error:` line. Not decided: declarations outside the corpus, longer words."),
+             "process_error prints one `error:` line. Not decided: declarations outside the corpus, longer words." + IMP +
+             "C07 (token stream, `no tokens` vs `one empty token`) and C08.classify."),
     "design_ref": "DESIGN.md §4 C09",
     "note": TB + " fixtures/decls/oracle.json and genfsm.ref_parse are the references.",
 }
